@@ -27,7 +27,9 @@ RULE = ('metric: generated models with 1-3 scalar/vector summaries and an elfi.D
         'row by row. adhist: a data set (1-3 summaries of width 1-3, 4-40 rows) fed to '
         'AdaptiveDistance.add_data under a tape-chosen partition into calls (single rows '
         'included) over 1-4 rounds with update_distance / init_adaptation_round in between, '
-        'some rounds done by an adaptive Rejection run on the same node instead of by hand; '
+        'some rounds done by an adaptive Rejection run on the same node instead of by hand, '
+        'the distance not evaluated after every round, the adaptation sometimes restarted with '
+        'init_state(); '
         'scale vs numpy std(ddof=0), newest distance, earlier distances unchanged. adsim: '
         'AdaptiveDistanceSMC (1-3 rounds) and adaptive Rejection under tape-chosen schedules. '
         'distinct = (kind, metric / partition shape / schedule abstract); non-trivial = metric: '
@@ -206,6 +208,12 @@ def run_adhist(tape, out):
         scales = []
         shapes = []
         for r in range(rounds):
+            if r and tape.chance('restart_adaptation', 1, 6):
+                # init_state() starts the adaptation over: one (unscaled) distance again
+                node.init_state()
+                scales = []
+                prev_cols = None
+                out.probes['adaptation_restarted'] += 1
             if tape.chance('sampler_round', 1, 5):
                 # this round is done by an adaptive Rejection run on the same node (the sampler
                 # adds the data and updates the distance itself); rounds done by hand before
@@ -262,14 +270,15 @@ def run_adhist(tape, out):
                     return
                 node.update_distance()
             scales.append(exp_scale)
+            if r < rounds - 1 and tape.chance('round_without_evaluation', 1, 3):
+                # the distance is not evaluated after every round
+                out.probes['round_without_evaluation'] += 1
+                continue
+            ncol = len(scales) + 1
             cols = np.asarray(node.generate(probe_n, with_values=probe))
-            if cols.shape != (probe_n, r + 2):
+            if cols.shape != (probe_n, ncol):
                 out.violate('newest-distance', 'output-shape', round=r, rows=probe_n,
-                            shape=list(cols.shape), expected=[probe_n, r + 2])
-                return
-            if cols.shape[1] != r + 2:
-                out.violate('newest-distance', 'column-count', round=r, columns=cols.shape[1],
-                            expected=r + 2)
+                            shape=list(cols.shape), expected=[probe_n, ncol])
                 return
             exp_new = np.sqrt((((Up - v) / exp_scale) ** 2).sum(axis=1))
             if not np.allclose(cols[:, -1], exp_new, rtol=1e-9, atol=1e-12):
@@ -280,7 +289,15 @@ def run_adhist(tape, out):
             if not np.allclose(cols[:, 0], exp0, rtol=1e-9, atol=1e-12):
                 out.violate('earlier-unchanged', 'first-column', round=r)
                 return
-            if prev_cols is not None and not np.array_equal(cols[:, :-1], prev_cols):
+            # every earlier distance still divides by the scale of ITS round
+            for k, sc in enumerate(scales[:-1], 1):
+                exp_k = np.sqrt((((Up - v) / sc) ** 2).sum(axis=1))
+                if not np.allclose(cols[:, k], exp_k, rtol=1e-9, atol=1e-12):
+                    out.violate('earlier-unchanged', 'column-value', round=r, column=k,
+                                got=cols[:, k].tolist(), expected=exp_k.tolist())
+                    return
+            if prev_cols is not None and \
+                    not np.array_equal(cols[:, :prev_cols.shape[1]], prev_cols):
                 out.violate('earlier-unchanged', '', round=r)
                 return
             prev_cols = cols
